@@ -7,6 +7,7 @@ import (
 	"fmt"
 	"io"
 	stdslog "log/slog"
+	"os"
 	"reflect"
 	"runtime"
 	"strings"
@@ -490,6 +491,19 @@ func c09hist(c *Ctx) {
 			lv := p.lvl
 			if lv == slog.PanicLevel || lv == slog.FatalLevel {
 				lv = slog.WarnLevel
+			}
+			if normalSev := lv == slog.InfoLevel || lv == slog.DebugLevel || lv == slog.TraceLevel || lv == slog.AlwaysLevel || lv == slog.OKLevel || lv == slog.SuccessLevel; kind == "root" && normalSev && vr.P(50) {
+				// the logger's first normal destination is a log file made by NewFileWriter that the application has closed
+				// (rotated away); the recording destination stands behind it (what the library reports about the file goes to
+				// an error device that discards): every record reaches the recording destination the same way
+				if d, err := os.MkdirTemp("", "c09-closed-*"); err == nil {
+					cf := slog.NewFileWriter(d + "/app.log")
+					lgv.SetWriter(cf).AddWriter(w)
+					lgv.SetErrorWriter(io.Discard)
+					_ = cf.Close()
+					defer os.RemoveAll(d)
+					c.R.Add("verb_probes_behind_a_closed_NewFileWriter_file", 1)
+				}
 			}
 			emitV := func() []byte {
 				slog.SetMessageMinimalWidth(p.minW) // the presentation settings are inputs of the call
